@@ -1231,5 +1231,7 @@ def run(chk, tier):
     chk.guard('C07.e', lambda: rule_addrconst(chk, prog, tier))
     chk.guard('C07.f', lambda: rule_initialisable(chk, prog, tier))
     chk.guard('C07.g', lambda: rule_shared_array_type(chk, prog, tier))
+    from props import c09
+    chk.guard('C09.k', lambda: c09.rule_tentative_objects(chk, prog, tier))     # the size and alignment a tentative / redeclared object is finally defined with
     from props import c16
     chk.guard('C16.c', lambda: c16.rule_stringkey(chk, prog, tier))      # string literal objects: distinct literals get distinct storage
